@@ -12,6 +12,14 @@
   `exactDomain` is the sub-domain on which the code is exact: collections of exactly one
   member, no ring with a doubled closing vertex, no negative float zero among the property
   values.  For each excluded class the `_full` statement is kept and its negation proved.
+  `exactDomainZ` weakens the zero clause to what the code needs (no +0 / −0 pair of one float
+  type within one layer), and the `_ori` / `_exact` theorems are stated for the decoder run with
+  ANY orientation function that is exact on the rings of the input (`oriAgree`): Go runs the
+  float64 shoelace of `Ring.Orientation`, which is not exact for thin rings at |v| ≥ 2^27 (known
+  finding regroup-rounding) — the theorems with `oriInt` built in are the instance `ori = oriInt`
+  and say nothing about those inputs beyond the model.
+  Ids: the model keeps the uint64 id; `Unmarshal` hands it out as `float64(id)` (`idFloat`), exact
+  below 2^53 — the bound in `idWF`.
 -/
 import OrbProofs.C03Lemmas
 
@@ -34,6 +42,23 @@ theorem delta_roundtrip (a b : Int) (ha : coordOK a = true) (hb : coordOK b = tr
 theorem geometry_roundtrip_partial (g : Geom Int) (h : geomWF g = true) (hd : geomNoDupClose g = true) :
     geometryRT g = .ok (normG g) := geometry_roundtrip_partial' g h hd
 
+/-- The same for the decoder run with any orientation function `ori` that gives the exact sign
+    on the rings of `g` (Go: the float64 shoelace; not exact for some rings with |v| ≥ 2^27). -/
+theorem geometry_roundtrip_ori (ori : List (Pt Int) → Int) (g : Geom Int) (h : geomWF g = true)
+    (hd : geomNoDupClose g = true) (hori : ∀ r ∈ ringsOf g, ori r = oriInt r) :
+    ∃ t ws, encodeGeometry g = .ok (t, ws) ∧ (decodeGeometryIter ori t ws 0).1 = .ok (normG g) :=
+  geometry_roundtrip_ori' ori g h hd hori
+
+/-- `Ring.Closed()` is decided by Go on the float64 points, the command words are built from
+    their int32 truncations: `encRingG cl`.  On integer coordinates that is `encRing` … -/
+theorem encRing_eq_encRingG (c : Cur) (r : List (Pt Int)) : encRing c r = encRingG (closed r) c r :=
+  encRing_eq_encRingG' c r
+
+/-- … and a ring that is open as floats but whose truncations close is written like the
+    truncated ring with its first vertex appended once more (what the driver feeds the model). -/
+theorem encRingG_false_eq_reopen (c : Cur) (r : List (Pt Int)) (h : closed r = true) :
+    encRingG false c r = encRing c (reopen r) := encRingG_false_eq_reopen' c h
+
 /-- Without the side condition the statement (`geometry_roundtrip_full`) is false. -/
 theorem ring_reclose_witness : ¬ geometry_roundtrip_full := ring_reclose_witness'
 
@@ -48,6 +73,17 @@ theorem properties_roundtrip (e : KVE) (ps : List (String × PVal))
       e'.keys.length ≤ e.keys.length + ps.length ∧ e'.vals.length ≤ e.vals.length + ps.length ∧
       ∀ e'', KVE.le e' e'' → decodeTags e''.keys e''.dvals tags [] = .ok (expectProps ps) :=
   encodeProperties_decode e ps hn hv hz hi hk hl
+
+/-- The same under the weakest zero condition: the values of the map are among the values `vs`
+    of a layer in which no +0 / −0 pair of one float type occurs (negative zeros allowed). -/
+theorem properties_roundtrip_zero (vs : List PVal) (e : KVE) (ps : List (String × PVal))
+    (hn : nodupKeys ps = true) (hv : ∀ p ∈ ps, pvalWF p.2 = true)
+    (hsub : ∀ p ∈ ps, p.2 ∈ vs) (hnc : noZeroClash vs = true)
+    (hi : KVE.InvZ vs e) (hk : e.keys.length + ps.length ≤ 2^32) (hl : e.vals.length + ps.length ≤ 2^32) :
+    ∃ tags e', encodeProperties e ps = .ok (tags, e') ∧ KVE.InvZ vs e' ∧ KVE.le e e' ∧
+      e'.keys.length ≤ e.keys.length + ps.length ∧ e'.vals.length ≤ e.vals.length + ps.length ∧
+      ∀ e'', KVE.le e' e'' → decodeTags e''.keys e''.dvals tags [] = .ok (expectProps ps) :=
+  encodeProperties_decodeZ vs e ps hn hv hsub hnc hi hk hl
 
 /-- Every iteration order of the Go map gives the same tags and the same tables. -/
 theorem marshal_deterministic (e : KVE) (l l' : List (String × PVal)) (hp : l.Perm l')
@@ -67,11 +103,32 @@ theorem layer_roundtrip_partial (ls : List Layer) (h : mvtWF ls = true) (hx : ex
     ∃ t, marshalVT ls = .ok t ∧ unmarshalVT t = .ok (expectLayers ls) :=
   layer_roundtrip_partial' ls h hx
 
-/-- "Every member of a collection becomes its own feature" holds for one-member collections … -/
-theorem collection_members_partial (ls : List Layer) (t : VTTile) (h : mvtWF ls = true)
+/-- The round trip at full strength, for what Go runs: `unmarshalVTWith ori` with any orientation
+    function that is exact on the rings of the input (`oriAgree` — an explicit hypothesis: the
+    float64 shoelace violates it on the thin-triangle witnesses of regroup-rounding, which satisfy
+    `mvtWF ∧ exactDomain`), and layers without a +0 / −0 clash (a lone −0.0 comes back bit for bit). -/
+theorem layer_roundtrip_exact (ori : List (Pt Int) → Int) (ls : List Layer) (h : mvtWF ls = true)
+    (hx : exactDomainZ ls = true) (ho : oriAgree ori ls) :
+    ∃ t, marshalVT ls = .ok t ∧ (unmarshalVTWith ori t).1 = .ok (expectLayers ls) :=
+  layer_roundtrip_exact' ori ls h hx ho
+
+/-- `exactDomain` is inside `exactDomainZ`. -/
+theorem exactDomain_le_exactDomainZ (ls : List Layer) (hx : exactDomain ls = true) :
+    exactDomainZ ls = true := exactDomainZ_of_exactDomain ls hx
+
+/-- "Every member of a collection becomes its own feature" holds for one-member collections: the
+    feature counts agree (no well-formedness needed) … -/
+theorem collection_members_partial (ls : List Layer) (t : VTTile)
     (hs : ∀ l ∈ ls, ∀ f ∈ l.features, singleColl f.geom = true) (hm : marshalVT ls = .ok t) :
     t.map (fun l => l.features.length) = ls.map fun l => (l.features.flatMap expectFeature).length :=
-  collection_members_partial' ls t h hs hm
+  collection_members_partial' ls t hs hm
+
+/-- … a one-member collection is marshalled exactly like its member (same feature, same table
+    updates), so that `layer_roundtrip_exact` gives the member's id, geometry and properties back … -/
+theorem collection_single_as_member (fs : List VTFeature) (e : KVE) (id : IdVal)
+    (props : List (String × PVal)) (g : Geom Int) (hg : ∀ gs, g ≠ .collection gs) :
+    addFeature fs e ⟨id, .val (.collection [g]), props⟩ = addFeature fs e ⟨id, .val g, props⟩ :=
+  collection_single_as_member' fs e id props g hg
 
 /-- … and is false of the code in general (`addFeature` returns after the first member). -/
 theorem collection_witness : ¬ collection_members_full := collection_witness'
@@ -101,6 +158,12 @@ theorem unmarshal_total (t : VTTile) : (unmarshalVT t).isPanic = false := unmars
 /-- … and requests at most one slot per feature plus one per command word. -/
 theorem unmarshal_alloc_bound (t : VTTile) : unmarshalAlloc t ≤ vtSize t := unmarshal_alloc_bound' t
 
+/-- Both for the decoder run with ANY orientation function (what Go runs is `ori = ` the float64
+    shoelace, not the exact `oriInt` of the two theorems above). -/
+theorem unmarshal_total_ori (ori : List (Pt Int) → Int) (t : VTTile) :
+    (unmarshalVTWith ori t).1.isPanic = false ∧ (unmarshalVTWith ori t).2 ≤ vtSize t :=
+  unmarshal_total_ori' ori t
+
 /-- `Unmarshal` (the gzip magic test included) panics only if `unmarshalTile` does. -/
 theorem unmarshal_top_total {α : Type} (data : List UInt8) (r : R α) (h : r.isPanic = false) :
     (unmarshalTop data r).isPanic = false := unmarshal_top_total' data r h
@@ -113,5 +176,26 @@ example : mvtWF [{ name := "a", version := 2, extent := 4096, features :=
     [{ id := .int 7, props := [("k", .sint .int8 (-3)), ("b", .nil)],
        geom := .val (.polygon [[⟨0,0⟩,⟨4,0⟩,⟨4,4⟩,⟨0,4⟩,⟨0,0⟩], [⟨1,1⟩,⟨1,2⟩,⟨2,2⟩,⟨2,1⟩,⟨1,1⟩]]) }] }] = true := by
   decide
+
+/-- Non-vacuity of the weakened zero clause: a lone −0.0 (float64) next to a +0.0 of the OTHER
+    float type is in `exactDomainZ` but not in `exactDomain`. -/
+example : exactDomainZ [{ name := "z", version := 1, extent := 4096, features :=
+    [{ id := .none, props := [("a", .f64 0x8000000000000000), ("b", .f32 0)], geom := .val (.point ⟨1, 1⟩) }] }] = true ∧
+  exactDomain [{ name := "z", version := 1, extent := 4096, features :=
+    [{ id := .none, props := [("a", .f64 0x8000000000000000), ("b", .f32 0)], geom := .val (.point ⟨1, 1⟩) }] }] = false ∧
+  mvtWF [{ name := "z", version := 1, extent := 4096, features :=
+    [{ id := .none, props := [("a", .f64 0x8000000000000000), ("b", .f32 0)], geom := .val (.point ⟨1, 1⟩) }] }] = true := by
+  decide
+
+/-- Non-vacuity of `oriAgree`: it holds of the exact orientation for every input, and the rings it
+    speaks about are the ones of the input (here: outer ring and hole of a polygon). -/
+example : gvalRings (.val (.polygon [[⟨0,0⟩,⟨4,0⟩,⟨4,4⟩,⟨0,4⟩,⟨0,0⟩], [⟨1,1⟩,⟨1,2⟩,⟨2,2⟩,⟨2,1⟩,⟨1,1⟩]])) =
+    [[⟨0,0⟩,⟨4,0⟩,⟨4,4⟩,⟨0,4⟩,⟨0,0⟩], [⟨1,1⟩,⟨1,2⟩,⟨2,2⟩,⟨2,1⟩,⟨1,1⟩]] ∧
+    ∀ ls, oriAgree oriInt ls := ⟨rfl, oriAgree_oriInt⟩
+
+/-- The fractional-ring witness of the review: (0.5,0),(4,0),(4,4),(0,0) truncates to a closed
+    ring; Go (Closed() = false on the floats) writes MoveTo, LineTo×3, ClosePath. -/
+example : encRingG false cur0 [⟨0,0⟩,⟨4,0⟩,⟨4,4⟩,⟨0,0⟩] =
+    .ok (⟨0, 0⟩, [9, 0, 0, 26, 8, 0, 0, 8, 7, 7, 15]) := by decide
 
 end Orb.MVT
